@@ -15,6 +15,7 @@ import (
 	"os"
 	"sync"
 	"time"
+	"verifharness/internal/hx"
 
 	"github.com/tjfoc/gmsm/gmtls"
 	"github.com/tjfoc/gmsm/sm2"
@@ -133,11 +134,14 @@ func runAN(suite uint16, src, pattern, servername string) (string, string) {
 	go func() { wg.Wait(); close(done) }()
 	select {
 	case <-done:
-	case <-time.After(allDeadline):
+	case <-time.After(hx.D(allDeadline)):
 		a.Close()
 		return "HANG", "deadline"
 	}
 	a.Close()
+	if grp.timedOut() {
+		return "HANG", "pipe deadline (clock), not a stall"
+	}
 	return cres, cerr + " | server: " + sres + " " + serr
 }
 
